@@ -118,18 +118,28 @@ func init() {
 		Bounds: "skeleton whole", Assumes: []string{aT, aSlots}})
 
 	reg(&HarnessSpec{Prop: "C13", Name: "C13BlankImport", MapOrder: true,
-		What:    "real front half on skeleton blank (a blank import of a package that bears the NAME of a regularly imported one whose directory is called differently: _ \"verifsk/side/lib\" next to \"verifsk/lib/v2\", package lib) with every iteration order of the import table explored at each range site: the qualifier lib resolves to the named import, ':conv lib.Norm Name' is accepted and used under every order",
-		Bounds:  "skeleton blank, 2 slot choices, map orders of one range site per path", Assumes: []string{aT, aSlots}})
+		What:   "real front half on skeleton blank (a blank import of a package that bears the NAME of a regularly imported one whose directory is called differently: _ \"verifsk/side/lib\" next to \"verifsk/lib/v2\", package lib) with every iteration order of the import table explored at each range site: the qualifier lib resolves to the named import, ':conv lib.Norm Name' is accepted and used under every order",
+		Bounds: "skeleton blank, 2 slot choices, map orders of one range site per path", Assumes: []string{aT, aSlots}})
+	for _, pr := range []string{"C03", "C01", "C10", "C06"} {
+		reg(&HarnessSpec{Prop: pr, Name: "C03DotImport", Replay: "native",
+			What:   "real front half on skeleton dot (the setup file dot-imports verifsk/lib/v2 and names its function bare in ':conv Norm Name'; it imports verifsk/ext under the name pets and names a converter and a post hook of it as pets.Norm / pets.PostPet): the file is accepted with one function per method, converter and hook calls are spelled with the names the setup file's scope gives them, and the emitted functions type-check in the package",
+			Bounds: "skeleton dot, 2 slot choices", Assumes: []string{aT, aSlots}})
+	}
+	for _, pr := range []string{"C05", "C14"} {
+		reg(&HarnessSpec{Prop: pr, Name: "C05Logger", Replay: "native",
+			What:   "the REAL logger package (SetupLogger, Warnf, Errorf, Printf; summarised in every other harness) on a model of log.Logger (writer + flags, one line per call): without -log, with -log (Enable + Output, as runner.Run sets it up) and after a second set-up, a warning and an error reach standard error exactly once and exactly as formatted - also when the position text holds %, : or blanks (directory names) -, the error value carries the message, the trace never reaches standard error, and the log file holds all three",
+			Bounds: "3 set-ups x 5 position texts x 3 field names", Assumes: []string{"package log: a Logger writes each message in one piece to its writer, with a time stamp in front when its flags are non-zero"}})
+	}
 	reg(&HarnessSpec{Prop: "C14", Name: "C14MainReports", Pkg: ".", Replay: "e2e-cli",
 		What:    "the REAL main() (harness injected into package main by overlay) with flags, positional argument and GOFILE symbolic and every pipeline stage summarised by an arbitrary result/error: whenever the process ends with os.Exit, the status is 1 and a message was written to standard error before - also for failures that never pass through the logger (os.Stat of the input, the import optimiser, the formatter, the write); a run without failure returns normally",
 		Bounds:  "paths <= 3 bytes (SMT strings); all flag valuations; every stage outcome",
 		Assumes: []string{aEnv, "stage summaries as in C15Run"}})
 	reg(&HarnessSpec{Prop: "C14", Name: "C17Selection",
-		What:    "for C14's 'never reports success while dropping a converter-interface method': on skeleton sel every method of every selected converter interface - incl. the methods an interface has by EMBEDDING an interface declared in a sibling file - yields a function (see C17Selection)",
-		Bounds:  "skeleton sel", Assumes: []string{aT, aSlots}})
+		What:   "for C14's 'never reports success while dropping a converter-interface method': on skeleton sel every method of every selected converter interface - incl. the methods an interface has by EMBEDDING an interface declared in a sibling file - yields a function (see C17Selection)",
+		Bounds: "skeleton sel", Assumes: []string{aT, aSlots}})
 	reg(&HarnessSpec{Prop: "C14", Name: "C14TypeErrors", Replay: "native",
-		What:    "real front half on skeleton dup, whose converter interface declares a method twice (go/types reports the error and leaves the duplicate out; another, unrelated type error stands elsewhere in the file): the run is rejected with a positioned diagnostic instead of succeeding with a method missing",
-		Bounds:  "skeleton dup, 2 slot choices", Assumes: []string{aT, aSlots}})
+		What:   "real front half on skeleton dup, whose converter interface declares a method twice (go/types reports the error and leaves the duplicate out; another, unrelated type error stands elsewhere in the file): the run is rejected with a positioned diagnostic instead of succeeding with a method missing",
+		Bounds: "skeleton dup, 2 slot choices", Assumes: []string{aT, aSlots}})
 	for _, pr := range []string{"C14", "C06"} {
 		reg(&HarnessSpec{Prop: pr, Name: "C14NotationBytes", Replay: "native",
 			What:    "real parseNotationInComments (reNotation/reLiteral run by a leftmost-first backtracking matcher over the byte vector, strings.Fields, NewIdentMatcher, NewNameMatcher, NewFieldConverter, NewLiteralSetter, isValidIdentifier) on ONE method-level notation line ':<notation><sep><args>' for the type-free notations literal/map/conv/style/match/recv/reverse/case:off and an unknown one, with the ARGUMENT TEXT an arbitrary byte string: no Go run-time panic; too few arguments are rejected with a diagnostic; otherwise exactly the white-space separated arguments are recorded (destination / source / function / literal text = rest of the line); :style/:match accept exactly the documented values; :recv accepts identifiers only; unknown notations are ignored",
